@@ -206,6 +206,17 @@ def lmRun (pr : Prob P D α) (reject : Nat) (o : Opt P S α) (es : List (Env P D
 def lmRunV (pr : Prob P D α) (o : Opt P S α) (es : List (Nat × Env P D S α)) : Opt P S α :=
   es.foldl (fun o re => lmCall pr re.1 o re.2) o
 
+/-- a whole run with ONE stateful user solver: `gsolve n p` is what the solver does at its `n`-th call of the run
+(`none` = it raises there), whichever `step()` call that solve belongs to. State: optimizer + number of solves so far. -/
+def lmCallG (pr : Prob P D α) (reject : Nat) (gsolve : Nat → P → Option D)
+    (on : Opt P S α × Nat) (upd : S → α → α → D → S) : Opt P S α × Nat :=
+  let st := lmStep pr reject { solve := fun i p => gsolve (on.2 + i) p, upd := upd } on.1.cached on.1.p on.1.s
+  ({ p := st.p, s := st.s, cached := some st.loss, last := some st.last, rc := st.rc }, on.2 + st.solves)
+
+def lmRunG (pr : Prob P D α) (reject : Nat) (gsolve : Nat → P → Option D)
+    (on : Opt P S α × Nat) (upds : List (S → α → α → D → S)) : Opt P S α × Nat :=
+  upds.foldl (lmCallG pr reject gsolve) on
+
 /-! ## Gauss-Newton -/
 
 structure GNOpt (P α : Type) where
@@ -245,6 +256,31 @@ def robustLoss (kernels : List (α → α)) (outs : List (Output α)) : α :=
   else
     let rho := kernels.headD (fun x => x)
     DVec.sum (outs.map (outputLoss rho))
+
+/-- the `kernel=` argument as the user writes it: nothing, one kernel, or a list whose entries may be `None` -/
+inductive KSpec (α : Type) where
+  | none
+  | single (rho : α → α)
+  | list (ks : List (Option (α → α)))
+
+/-- constructor glue of `GaussNewton` / `LevenbergMarquardt` / `RobustModel`:
+`kernel = [kernel] if not a list`, `k if k is not None else Trivial()`, `[Trivial()] if kernel is None` -/
+def normKernels : KSpec α → List (α → α)
+  | .none => [fun x => x]
+  | .single rho => [rho]
+  | .list ks => ks.map (fun o => o.getD (fun x => x))
+
+/-- the loss an optimizer built with `kernel=spec` reports -/
+def lossOf (spec : KSpec α) (outs : List (Output α)) : α := robustLoss (normKernels spec) outs
+
+/-! ### strategy constructors: what ends up in the param group (`defaults`) -/
+
+/-- `Constant(damping)` -/
+def initConstant (damping : α) : SState α := ⟨damping, k 1 / damping, k 1⟩
+/-- `Adaptive(damping, …, down)`: `pg['down']` is the constant down factor -/
+def initAdaptive (damping down : α) : SState α := ⟨damping, k 1 / damping, down⟩
+/-- `TrustRegion(radius, …, down)`: `damping = 1 / radius` -/
+def initTrust (radius down : α) : SState α := ⟨k 1 / radius, radius, down⟩
 
 /-- kernels needed by the loss stream (the kernel laws themselves are property C09) -/
 def rhoTrivial (x : α) : α := x
